@@ -113,6 +113,8 @@ func parseJob(harness, param string) *interp.Job {
 					j.NoLeakCheck = n != 0
 				case "steps":
 					j.MaxSteps = n
+				case "solver":
+					j.Solver = v
 				}
 			}
 		}
